@@ -597,6 +597,176 @@ Proof.
       cbn [rev app parse_lines]. rewrite parseline_row by assumption. now rewrite Hp.
 Qed.
 
+(* ------------------------------------------------------------ K1: the buffered reader (readline as written) *)
+Lemma find_line_hit : forall line t, no_nl line = true -> find_line (line ++ 10 :: t) = Some (line, t).
+Proof.
+  induction line as [|c l IH]; intros t H; [reflexivity|].
+  rewrite no_nl_cons in H. apply andb_true_iff in H as [Hc Hl]. apply negb_true_iff, orb_false_iff in Hc as [H10 H13].
+  cbn [app find_line]. rewrite H10, H13, (IH t Hl). reflexivity.
+Qed.
+
+Lemma find_line_none : forall b, no_nl b = true -> find_line b = None.
+Proof.
+  induction b as [|c l IH]; intros H; [reflexivity|].
+  rewrite no_nl_cons in H. apply andb_true_iff in H as [Hc Hl]. apply negb_true_iff, orb_false_iff in Hc as [H10 H13].
+  cbn [find_line]. rewrite H10, H13, (IH Hl). reflexivity.
+Qed.
+
+(* where a buffer/file cut can fall relative to the first line of the remaining text *)
+Lemma cut_cases : forall buf file line rest,
+  buf ++ file = line ++ 10 :: rest ->
+  (exists t, buf = line ++ 10 :: t /\ t ++ file = rest) \/
+  (exists m, line = buf ++ m /\ file = m ++ 10 :: rest).
+Proof.
+  induction buf as [|c b IH]; intros file line rest H.
+  - right. exists line. split; [reflexivity|exact H].
+  - destruct line as [|x l].
+    + cbn [app] in H. inversion H; subst. left. exists b. split; reflexivity.
+    + cbn [app] in H. inversion H; subst. destruct (IH file l rest H2) as [(t & -> & Ht)|(m & -> & Hf)].
+      * left. exists t. split; [reflexivity|exact Ht].
+      * right. exists m. split; [reflexivity|exact Hf].
+Qed.
+
+Lemma readline_line : forall n, (1 <= n)%nat -> forall fuel buf file line rest,
+  buf ++ file = line ++ 10 :: rest -> no_nl line = true -> (length file <= fuel)%nat ->
+  exists b f, readline n fuel buf file = RlLine line b f /\ b ++ f = rest.
+Proof.
+  intros n Hn. induction fuel as [|k IH]; intros buf file line rest Heq Hnl Hfuel.
+  - destruct (cut_cases _ _ _ _ Heq) as [(t & -> & Ht)|(m & -> & Hf)].
+    + exists t, file. cbn [readline]. rewrite find_line_hit by exact Hnl. split; [reflexivity|exact Ht].
+    + subst file. rewrite app_length in Hfuel. cbn [length] in Hfuel. exfalso. lia.
+  - destruct (cut_cases _ _ _ _ Heq) as [(t & -> & Ht)|(m & -> & Hf)].
+    + exists t, file. cbn [readline]. rewrite find_line_hit by exact Hnl. split; [reflexivity|exact Ht].
+    + rewrite no_nl_app in Hnl. apply andb_true_iff in Hnl as [Hb Hm].
+      cbn [readline]. rewrite (find_line_none buf Hb).
+      assert (Hne : exists c q, firstn n file = c :: q).
+      { subst file. destruct n as [|n']; [lia|]. destruct m as [|c m']; cbn [app firstn]; eauto. }
+      destruct Hne as (c & q & Hch). rewrite Hch.
+      apply IH.
+      * rewrite <- Hch, <- app_assoc, firstn_skipn. exact Heq.
+      * rewrite no_nl_app. now rewrite Hb, Hm.
+      * rewrite skipn_length. assert (1 <= length file)%nat.
+        { subst file. rewrite app_length. cbn [length]. lia. }
+        lia.
+Qed.
+
+Definition doc_text (ts : list triple) : str := flat_map (fun t => row_line t ++ [10]) ts.
+
+Lemma nt_doc_text : forall ts, forallb good_triple ts = true -> nt_doc ts = Some (doc_text ts).
+Proof.
+  induction ts as [|t ts IH]; intros H; [reflexivity|].
+  simpl in H. apply andb_true_iff in H as [Ht Hts].
+  unfold good_triple in Ht. apply andb_true_iff in Ht as [Ht _]. apply andb_true_iff in Ht as [Hwf _].
+  cbn [nt_doc doc_text flat_map]. rewrite (nt_row_line t Hwf), (IH Hts). reflexivity.
+Qed.
+
+Lemma read_all_doc : forall n, (1 <= n)%nat -> forall ts, forallb good_triple ts = true ->
+  forall fuel buf file, buf ++ file = doc_text ts -> (length ts < fuel)%nat ->
+  read_all n fuel buf file = Some (map row_line ts).
+Proof.
+  intros n Hn. induction ts as [|t ts IH]; intros Hg fuel buf file Heq Hfuel.
+  - destruct fuel as [|k]; [lia|]. cbn [doc_text flat_map] in Heq.
+    apply app_eq_nil in Heq as [-> ->]. cbn [read_all length readline find_line]. rewrite firstn_nil. reflexivity.
+  - destruct fuel as [|k]; [cbn [length] in Hfuel; lia|].
+    simpl in Hg. apply andb_true_iff in Hg as [Ht Hts].
+    assert (Hnl : no_nl (row_line t) = true).
+    { unfold good_triple in Ht. apply andb_true_iff in Ht as [Ht _]. apply andb_true_iff in Ht as [Hwf Hrd].
+      now apply row_line_no_nl. }
+    cbn [doc_text flat_map] in Heq. rewrite <- app_assoc in Heq. cbn [app] in Heq.
+    destruct (readline_line n Hn (S (S (length file))) buf file (row_line t) (doc_text ts) Heq Hnl) as (b & f & Hr & Hbf);
+      [lia|].
+    cbn [read_all]. rewrite Hr. rewrite (IH Hts k b f Hbf) by (cbn [length] in Hfuel; lia). reflexivity.
+Qed.
+
+Lemma parse_lines_rows : forall ts, forallb good_triple ts = true -> parse_lines (map row_line ts) = Some ts.
+Proof.
+  induction ts as [|t ts IH]; intros H; [reflexivity|].
+  simpl in H. apply andb_true_iff in H as [Ht Hts].
+  unfold good_triple in Ht. apply andb_true_iff in Ht as [Ht Hv]. apply andb_true_iff in Ht as [Hwf Hrd].
+  cbn [map parse_lines]. rewrite parseline_row by assumption. now rewrite (IH Hts).
+Qed.
+
+(* documents of any length, any chunk size >= 1 (the code uses 2048) *)
+Theorem nt_roundtrip_doc_buffered : forall n, (1 <= n)%nat -> forall ts, forallb good_triple ts = true ->
+  exists s, nt_doc ts = Some s /\ parse_doc_buf n s = Some ts.
+Proof.
+  intros n Hn ts H. exists (doc_text ts). split; [now apply nt_doc_text|].
+  unfold parse_doc_buf. rewrite (read_all_doc n Hn ts H _ [] (doc_text ts) eq_refl).
+  - now apply parse_lines_rows.
+  - assert (length ts <= length (doc_text ts))%nat; [|lia].
+    clear H. induction ts as [|t ts IH]; [cbn; lia|]. cbn [doc_text flat_map length].
+    rewrite !app_length. cbn [length]. fold (doc_text ts). lia.
+Qed.
+
+Theorem nt_roundtrip_row_buffered : forall n, (1 <= n)%nat -> forall t, good_triple t = true ->
+  exists s, nt_row t = Some s /\ parse_doc_buf n s = Some [t].
+Proof.
+  intros n Hn t H. destruct (nt_roundtrip_doc_buffered n Hn [t]) as (s & Hs & Hp); [simpl; now rewrite H|].
+  cbn [nt_doc] in Hs. destruct (nt_row t) as [a|]; [|discriminate]. inversion Hs; subst.
+  exists a. split; [reflexivity|]. now rewrite app_nil_r in Hp.
+Qed.
+
+(* the fuel of the buffered reader is an artefact of the definition: it never runs out *)
+Lemma find_line_none_no_nl : forall b, find_line b = None -> no_nl b = true.
+Proof.
+  induction b as [|c l IH]; intros H; [reflexivity|].
+  cbn [find_line] in H. rewrite no_nl_cons.
+  destruct (c =? 10) eqn:H10; [discriminate|]. destruct (c =? 13) eqn:H13.
+  - destruct l as [|d l']; [discriminate|]. destruct (d =? 10); discriminate.
+  - destruct (find_line l) as [[a t]|] eqn:E; [discriminate|]. now rewrite IH.
+Qed.
+
+Lemma find_line_shorter : forall b l t, find_line b = Some (l, t) -> (length t + 1 <= length b)%nat.
+Proof.
+  induction b as [|c r IH]; intros l t H; [discriminate|].
+  cbn [find_line] in H. cbn [length].
+  destruct (c =? 10); [inversion H; subst; lia|].
+  destruct (c =? 13).
+  - destruct r as [|d r']; [inversion H; subst; cbn; lia|].
+    destruct (d =? 10); inversion H; subst; cbn [length]; lia.
+  - destruct (find_line r) as [[a t']|] eqn:E; [|discriminate]. inversion H; subst.
+    specialize (IH a t eq_refl). lia.
+Qed.
+
+Lemma readline_total : forall n, (1 <= n)%nat -> forall fuel buf file, (length file + 1 <= fuel)%nat ->
+  match readline n fuel buf file with
+  | RlFuel => False
+  | RlEof => True
+  | RlLine l b f => (length b + length f + 1 <= length buf + length file)%nat
+  end.
+Proof.
+  intros n Hn. induction fuel as [|k IH]; intros buf file Hf; [lia|].
+  cbn [readline]. destruct (find_line buf) as [[l t]|] eqn:E.
+  - apply find_line_shorter in E. lia.
+  - destruct (firstn n file) as [|c q] eqn:Hch.
+    + destruct buf as [|b0 buf']; [exact I|]. destruct (forallb is_space (b0 :: buf')); [exact I|].
+      assert (Hfile : file = []).
+      { destruct file as [|x file']; [reflexivity|]. destruct n; [lia|]. discriminate. }
+      subst file. pose proof (find_line_none_no_nl _ E) as Hnl.
+      destruct k as [|k']; cbn [readline]; rewrite (find_line_hit _ [] Hnl); cbn [length]; lia.
+    + assert (Hlen : (1 <= length file)%nat) by (destruct file; [destruct n; discriminate|cbn; lia]).
+      specialize (IH (buf ++ c :: q) (skipn n file)).
+      rewrite skipn_length in IH.
+      assert (Hk : (length file - n + 1 <= k)%nat) by lia. specialize (IH Hk).
+      destruct (readline n k (buf ++ c :: q) (skipn n file)) as [| |l b f]; [exact IH|exact I|].
+      rewrite app_length, <- Hch, firstn_length in IH. lia.
+Qed.
+
+Lemma read_all_total : forall n, (1 <= n)%nat -> forall fuel buf file,
+  (length buf + length file + 1 <= fuel)%nat -> read_all n fuel buf file <> None.
+Proof.
+  intros n Hn. induction fuel as [|k IH]; intros buf file Hf; [lia|].
+  cbn [read_all]. pose proof (readline_total n Hn (S (S (length file))) buf file) as Hr.
+  destruct (readline n (S (S (length file))) buf file) as [| |l b f].
+  - exfalso. apply Hr. lia.
+  - discriminate.
+  - assert (Hle : (length b + length f + 1 <= k)%nat) by (specialize (Hr ltac:(lia)); lia).
+    specialize (IH b f Hle). destruct (read_all n k b f); [discriminate|contradiction].
+Qed.
+
+Theorem parse_doc_buf_fuel : forall n s, (1 <= n)%nat -> read_all n (S (S (length s))) [] s <> None.
+Proof. intros n s Hn. apply read_all_total; [exact Hn|cbn [length]; lia]. Qed.
+
 (* ------------------------------------------------------------ K1: the suite's checker *)
 Lemma list_triple_eqb_refl : forall l, list_eqb triple_eqb l l = true.
 Proof.
@@ -616,7 +786,8 @@ Proof.
   simpl in Hv. unfold nt_kf in Hk. unfold nt_spec, nt_model.
   destruct (wf_triple t) eqn:Hwf.
   - destruct (triple_readable t) eqn:Hrd; [|discriminate].
-    destruct (nt_roundtrip_row t) as (s & Hs & Hp).
+    destruct (nt_roundtrip_row_buffered bufsiz) with (t := t) as (s & Hs & Hp).
+    { unfold bufsiz. lia. }
     { unfold good_triple. now rewrite Hwf, Hrd, Hv. }
     rewrite Hs, Hp. apply (list_triple_eqb_refl [t]).
   - destruct (nt_row t); reflexivity.
@@ -853,8 +1024,8 @@ Definition w_nbsp_triple : triple := (Iri w_nbsp_iri, [104; 58; 112], ONode (Iri
 
 Lemma nt_roundtrip_refuted_witness :
   wf_triple w_nbsp_triple = true /\ pystr_triple w_nbsp_triple = true /\ nt_kf (NtTriple w_nbsp_triple) = 1 /\
-  exists s, nt_row w_nbsp_triple = Some s /\ parse_doc s = None.
-Proof. repeat split. eexists. split; vm_compute; reflexivity. Qed.
+  exists s, nt_row w_nbsp_triple = Some s /\ parse_doc s = None /\ parse_doc_buf bufsiz s = None.
+Proof. repeat split. eexists. repeat split; vm_compute; reflexivity. Qed.
 
 (* a line feed inside the scheme part cuts the row in two *)
 Definition w_lf_triple : triple := (Iri [97; 10; 98; 58; 99], [104; 58; 112], ONode (Iri [104; 58; 111])).
